@@ -17,7 +17,7 @@ from ..runner import CaseResult, digest
 ID = "C18"
 RULE = ("programs: every precondition program with <= 2 literals, every one-level or / forall precondition, every "
         "effect program with <= 2 simple effects, one when, or one forall-when (quick alphabets; thorough: the whole quick "
-        "corpus) with profiles (?x ?y), (?x - t2 ?y), (?x), plus a 3-parameter family; renamings: all fresh, every "
+        "corpus) with profiles (?x ?y), (?x - t2 ?y), (?x), plus a 3-parameter family and 4 programs over two-parameter fluents; renamings: all fresh, every "
         "permutation of the existing names, chain into a fresh name, partial; x every type-correct call x every "
         "state of the relevant universe. non-trivial = a non-identity renaming of a program whose behaviour table is "
         "not constant")
@@ -31,6 +31,14 @@ THREE = [
     ("(and (or (p ?w) (q ?x ?y)) (= ?y ?w))", "(and (p ?w) (when (p ?x) (not (q ?x ?y))))"),
     ("(and (>= (g ?w) 1) (forall (?z - t1) (or (p ?z) (q ?z ?w))))",
      "(and (assign (g ?x) (g ?w)) (forall (?z - t1) (when (q ?z ?w) (not (q ?z ?w)))))"),
+]
+
+
+TWO_PARAM_FLUENTS = [  # function terms over two parameters (their name-keyed signature is what a renaming rewrites)
+    ("(and (<= (h ?x ?y) 0.5))", "(and (increase (h ?x ?y) 1))"),
+    ("(and (>= (h ?y ?x) 1) (p ?x))", "(and (decrease (h ?y ?x) 1) (increase (h ?x ?y) 1))"),
+    ("(and)", "(and (when (< (h ?x ?y) (g ?y)) (assign (h ?x ?y) (g ?y))))"),
+    ("(and (or (> (h ?x ?y) 0) (r)))", "(and (forall (?z - t1) (when (p ?z) (increase (h ?x ?z) 1))))"),
 ]
 
 
@@ -62,8 +70,14 @@ def cases(tier):
             simple = t[0] in ("empty", "and1", "and2", "e1", "e2") or "forall-simple" in t or "when-bare" in t \
                 or (t[0] == "forall" and "(and" not in p["eff"][5:] and p["pre"] == "(and)" and "pre" not in t) \
                 or (t[0] == "or")
+            if tier == "quick" and {"dup", "nested-first", "two-forall"} & set(t):
+                continue  # no new renaming structure; kept for the thorough tier
             if tier != "quick" or (simple and "pre" not in t):
                 progs.append(p)
+    for pre, eff in TWO_PARAM_FLUENTS:
+        for prof in ("xy", "x2y"):
+            q = vdom.program(prof, pre, eff, ["fluent2"])
+            progs.append(q)
     for pre, eff in THREE:
         text = (f"(define (domain v)\n{vdom.header('typed')}\n(:action a\n :parameters ({P3})\n"
                 f" :precondition {pre}\n :effect {eff}))\n")
